@@ -225,7 +225,27 @@ func kernelConformance(run *report.Run, dir string) {
 		return
 	}
 	var total, agree int64
+	var tmu sync.Mutex
+	var twg sync.WaitGroup
 	for _, p := range progs {
+		twg.Add(1)
+		go func(p string) {
+			defer twg.Done()
+			n, ok := conformOne(run, dir, kdir, p)
+			tmu.Lock()
+			total += n
+			agree += ok
+			tmu.Unlock()
+		}(p)
+	}
+	twg.Wait()
+	run.SetExtra("kernel_conformance_runs", total)
+	run.SetExtra("kernel_conformance_agree", agree)
+}
+
+// conformOne: one program source, natively and in-kernel, frame by frame.
+func conformOne(run *report.Run, dir, kdir, p string) (int64, int64) {
+	{
 		k, err := nativebpf.KernelLoad(kdir, p, 4096)
 		if err != nil {
 			var ve *ebpf.VerifierError
@@ -235,20 +255,20 @@ func kernelConformance(run *report.Run, dir string) {
 					msg = msg[len(msg)-1500:]
 				}
 				run.Violation(report.Violation{Part: p + "/kernel-verifier", Kind: "kernel-verifier-reject", Site: p, Detail: "the running kernel's verifier rejects the program: " + msg})
-				continue
+				return 0, 0
 			}
 			if errors.Is(err, nativebpf.ErrNoBPF) {
 				run.AddPart(report.Part{Name: p + "/kernel-conformance", Engine: "C:kernel-test-run", Note: "skipped: " + err.Error(), Exhaustive: false})
-				continue
+				return 0, 0
 			}
 			run.HarnessError(p + ": " + err.Error())
-			continue
+			return 0, 0
 		}
 		d, err := nativebpf.Start(dir, p, false)
 		if err != nil {
 			run.HarnessError(err.Error())
 			k.Close()
-			continue
+			return 0, 0
 		}
 		resetEach := p == "nat44" || p == "qos_ratelimit"
 		var n, ok int64
@@ -310,13 +330,10 @@ func kernelConformance(run *report.Run, dir string) {
 		}
 		d.Close()
 		k.Close()
-		total += n
-		agree += ok
 		run.AddPart(report.Part{Name: p + "/kernel-conformance", Engine: "C:kernel-test-run", Bound: fmt.Sprintf("every %d-th frame shape x map states x programs; kernel verifier accepted the object", step),
 			Executions: n, Outcomes: ok, Exhaustive: true, Note: fmt.Sprintf("native and in-kernel (BPF_PROG_TEST_RUN) verdict+bytes agree on %d of %d runs", ok, n)})
+		return n, ok
 	}
-	run.SetExtra("kernel_conformance_runs", total)
-	run.SetExtra("kernel_conformance_agree", agree)
 }
 
 func replay(dir string) int {
